@@ -659,6 +659,22 @@ fn gen_queries(n_active: usize, thorough: bool) -> (Vec<Query>, Value) {
 		}
 	}
 	dims.insert("sort_order_limit_x_single".into(), json!(qs.len() - n0));
+	// id range pinned to one entry (min_id == max_id) with every other single criterion, and with
+	// every limit: the boundary-equal case of the range, where a look-up shortcut could drop the rest
+	let n0 = qs.len();
+	for v in 0..IDS.len() {
+		let mut others: Vec<Query> = vec![Query::new()];
+		for f in (F_EXCL_CANC..NFIELDS).filter(|f| *f != F_SORT && *f != F_ORDER) {
+			product(&[f], n_active, &mut others);
+		}
+		for o in others.iter() {
+			let mut q = o.clone();
+			q.insert(F_MIN_ID, v);
+			q.insert(F_MAX_ID, v);
+			qs.push(q);
+		}
+	}
+	dims.insert("pinned_id_x_single".into(), json!(qs.len() - n0));
 	if thorough {
 		let n0 = qs.len();
 		for i in 0..filt.len() {
